@@ -789,6 +789,18 @@ func (p *dhcpPool) Release(sub string) error {
 	return nil
 }
 
+// AllocSpecific is the INIT-REBOOT / selecting entry point of the pool (REQUEST naming an address).
+func (p *dhcpPool) AllocSpecific(sub string, v netip.Prefix) error {
+	defer p.lockSub(sub)()
+	if err := p.p.AllocateSpecific(macOf(sub), net.IP(v.Addr().AsSlice())); err != nil {
+		return err
+	}
+	p.mu.Lock()
+	p.mine[sub] = v
+	p.mu.Unlock()
+	return nil
+}
+
 // ReleaseValue is dhcp.Pool's real API: release by address, whoever holds it (or nobody).
 func (p *dhcpPool) ReleaseValue(v netip.Prefix) error {
 	p.mu.Lock()
@@ -1018,11 +1030,94 @@ type peerCluster struct {
 	nodes []*pool.PeerPool
 	names []string
 	n     int
+	tr    *memTransport
 }
 
-type memTransport struct{ mux map[string]*http.ServeMux }
+// PeerClusterHandle exposes the cluster to scenario tests (owner outage and recovery).
+type PeerClusterHandle struct{ c *peerCluster }
+
+// AsPeerCluster returns a handle if p is a peer cluster.
+func AsPeerCluster(p Pool) (*PeerClusterHandle, bool) {
+	c, ok := p.(*peerCluster)
+	if !ok {
+		return nil, false
+	}
+	return &PeerClusterHandle{c}, true
+}
+
+// Nodes returns the node names.
+func (h *PeerClusterHandle) Nodes() []string { return h.c.names }
+
+// Owner returns the node every node computes as owner of sub (healthy or not).
+func (h *PeerClusterHandle) Owner(sub string) string { return h.c.nodes[0].GetOwner(sub) }
+
+// SetReachable makes node n (un)reachable and lets every other node probe it with its real checkPeer until
+// its health view has followed (threshold failed probes, or one good probe).
+func (h *PeerClusterHandle) SetReachable(n string, up bool) {
+	h.c.tr.setDown(n, !up)
+	for i, nm := range h.c.names {
+		if nm == n {
+			continue
+		}
+		for k := 0; k < h.c.nodes[i].VerifC17HealthThreshold()+1; k++ {
+			h.c.nodes[i].VerifC17CheckPeer(bg, n)
+		}
+	}
+}
+
+// AllocateAt / ReleaseAt enter at the named node.
+func (h *PeerClusterHandle) AllocateAt(n, sub string) (string, string, error) {
+	for i, nm := range h.c.names {
+		if nm == n {
+			r, err := h.c.nodes[i].Allocate(bg, sub, nil)
+			if err != nil {
+				return "", "", err
+			}
+			return r.IP, r.NodeID, nil
+		}
+	}
+	return "", "", fmt.Errorf("no node %s", n)
+}
+func (h *PeerClusterHandle) ReleaseAt(n, sub string) error {
+	for i, nm := range h.c.names {
+		if nm == n {
+			return h.c.nodes[i].Release(bg, sub)
+		}
+	}
+	return fmt.Errorf("no node %s", n)
+}
+
+// Allocated returns each node's Stats().Allocated.
+func (h *PeerClusterHandle) Allocated() map[string]int {
+	out := map[string]int{}
+	for i, nm := range h.c.names {
+		out[nm] = h.c.nodes[i].Stats().Allocated
+	}
+	return out
+}
+
+type memTransport struct {
+	mux  map[string]*http.ServeMux
+	mu   sync.Mutex
+	down map[string]bool
+}
+
+func (m *memTransport) setDown(n string, d bool) {
+	m.mu.Lock()
+	if m.down == nil {
+		m.down = map[string]bool{}
+	}
+	m.down[n] = d
+	m.mu.Unlock()
+}
 
 func (m *memTransport) RoundTrip(r *http.Request) (*http.Response, error) {
+	m.mu.Lock()
+	d := m.down[r.URL.Host]
+	m.mu.Unlock()
+	if d {
+		return nil, fmt.Errorf("connection refused (%s is down)", r.URL.Host)
+	}
 	h, ok := m.mux[r.URL.Host]
 	if !ok {
 		return nil, fmt.Errorf("no such peer %q", r.URL.Host)
@@ -1093,7 +1188,7 @@ func PeerCluster(base string, bits int) *Spec {
 	return &Spec{Impl: "pool.PeerPool/cluster", Geom: fmt.Sprintf("3 nodes x /%d from %s", bits, r.Addr()), Range: netip.PrefixFrom(r.Addr(), bits-2), UnitBits: 32, Usable: -1, Excluded: excl, Concurrent: true,
 		New: func() (Pool, error) {
 			tr := &memTransport{mux: map[string]*http.ServeMux{}}
-			pc := &peerCluster{names: names}
+			pc := &peerCluster{names: names, tr: tr}
 			for i, nm := range names {
 				u := Units(subs[i], 32)
 				n, err := pool.NewPeerPool(pool.PeerPoolConfig{NodeID: nm, Peers: names, Network: subs[i].String(), Gateway: u[1].Addr().String(), Logger: zap.NewNop()})
